@@ -5,6 +5,7 @@ package interp
 
 import (
 	"fmt"
+	"os/exec"
 	"sort"
 	"strconv"
 	"strings"
@@ -81,6 +82,7 @@ type pathCtx struct {
 	assertSites map[string]bool
 	assumes int
 	freshVars map[string]bool // declared inputs not yet mentioned in any term
+	fpBits  map[string]sym
 }
 
 type killPath struct{ why string }
@@ -332,9 +334,74 @@ func (px *pathCtx) check(c value, kind, label string) bool {
 	case "error":
 		panic(unsupported{"solver error at obligation " + label + ": " + strings.Join(px.sol.errs, "; ")})
 	default:
+		// the resident solver gave up: try the other back ends on the whole
+		// path script.
+		switch res, who := px.portfolio(neg); res {
+		case "unsat":
+			px.res.discharged++
+			px.res.labels["discharged by "+who] = true
+			return true
+		case "sat":
+			px.violation(kind, label, "counterexample found by "+who+" (model not extracted)", false)
+			return false
+		}
 		px.res.unknown++
+		px.res.labels["UNKNOWN: "+label] = true
 		return false
 	}
+}
+
+// portfolio runs the path's script plus one assertion on the alternative
+// solvers (one-shot processes) and returns the first definite answer.
+func (px *pathCtx) portfolio(extra string) (string, string) {
+	if px.i == nil || px.i.cfg.NoPortfolio {
+		return "unknown", ""
+	}
+	script := px.script.String() + "(assert " + extra + ")\n(check-sat)\n"
+	type ans struct{ res, who string }
+	backends := [][]string{
+		{"z3-new", "-in", fmt.Sprintf("-T:%d", px.i.cfg.QueryTimeoutMs/1000+1)},
+		{"cvc5", "--lang=smt2", "--solve-bv-as-int=sum", fmt.Sprintf("--tlimit=%d", px.i.cfg.QueryTimeoutMs)},
+	}
+	ch := make(chan ans, len(backends))
+	for _, be := range backends {
+		go func(be []string) {
+			pre := ""
+			if be[0] == "cvc5" {
+				pre = "(set-logic ALL)\n"
+			}
+			out := runOnce(be, pre+script)
+			r := "unknown"
+			for _, line := range strings.Split(out, "\n") {
+				line = strings.TrimSpace(line)
+				if strings.HasPrefix(line, "(error") {
+					r = "unknown"
+					break
+				}
+				if line == "sat" || line == "unsat" {
+					r = line
+				}
+			}
+			ch <- ans{r, strings.Join(be[:1], "") + func() string {
+				if be[0] == "cvc5" {
+					return " --solve-bv-as-int=sum"
+				}
+				return ""
+			}()}
+		}(be)
+	}
+	result := ans{"unknown", ""}
+	for range backends {
+		a := <-ch
+		if a.res == "sat" || a.res == "unsat" {
+			if result.res == "unknown" {
+				result = a
+			} else if result.res != a.res {
+				return "unknown", "solver disagreement"
+			}
+		}
+	}
+	return result.res, result.who
 }
 
 func (px *pathCtx) violation(kind, label, detail string, haveModel bool) {
@@ -476,4 +543,11 @@ func sortedKeys(m map[string]bool) []string {
 	}
 	sort.Strings(ks)
 	return ks
+}
+
+func runOnce(argv []string, input string) string {
+	cmd := exec.Command(argv[0], argv[1:]...)
+	cmd.Stdin = strings.NewReader(input)
+	out, _ := cmd.CombinedOutput()
+	return string(out)
 }
